@@ -56,3 +56,36 @@ Definition internal_step (fuel : nat) (c : circuit) (ins outs : list label) (av 
 Definition internal_gates (fuel : nat) (c : circuit) (ins outs : list label) : res (list label) :=
   do r <- foldM (internal_step fuel c ins outs) outs ([], []);
   Ok (fst r).
+
+(* ---- the classification of the outputs of one subcircuit inside minimize_subcircuits ----
+   found_patterns maps a pattern to the label that owns it: first the leaves (a later leaf with the same pattern
+   replaces an earlier one), then the non-trivial outputs in order.  An output whose pattern is already owned is
+   `trivial` (outputs_mapping: equal to that leaf / earlier output); else, if the complement mx - p is owned, it is
+   `negated` (outputs_negation_mapping); else it is filtered (handed to the synthesiser) and owns its pattern.
+   mx - p is the truncated subtraction of N (exact for p <= mx, which holds for simulated patterns). *)
+Record classification : Type := mkClass {
+  cl_found : list (N * label);
+  cl_filtered : list label;          (* the set filtered_outputs *)
+  cl_filtered_lst : list label;
+  cl_trivial : dict label;           (* outputs_mapping *)
+  cl_negated : dict label            (* outputs_negation_mapping *)
+}.
+
+Definition found_of_leaves (pats : dict N) (leaves : list label) : list (N * label) :=
+  fold_left (fun fp l => py_adict_set N.eqb fp (pat_get pats l) l) leaves [].
+
+Definition classify_step (pats : dict N) (mx : N) (r : classification) (o : label) : classification :=
+  let p := pat_get pats o in
+  match py_adict_find N.eqb (cl_found r) p with
+  | Some l => mkClass (cl_found r) (cl_filtered r) (cl_filtered_lst r) (dset (cl_trivial r) o l) (cl_negated r)
+  | None =>
+    match py_adict_find N.eqb (cl_found r) (mx - p)%N with
+    | Some l => mkClass (cl_found r) (cl_filtered r) (cl_filtered_lst r) (cl_trivial r) (dset (cl_negated r) o l)
+    | None => mkClass (py_adict_set N.eqb (cl_found r) p o) (py_set_add (cl_filtered r) o)
+                      (cl_filtered_lst r ++ [o]) (cl_trivial r) (cl_negated r)
+    end
+  end.
+
+Definition classify_outputs (pats : dict N) (leaves outs : list label) : classification :=
+  fold_left (classify_step pats (max_pattern (N.of_nat (length leaves)))) outs
+            (mkClass (found_of_leaves pats leaves) [] [] [] []).
